@@ -440,6 +440,8 @@ def run(check, an: Analysis):
     # collect()/first() from outside passes through after the rest was aborted
     _scope.check_suppression(check, an, 'abort')
     _scope.check_foreign_signal_leaves_exit(check, an, 'abort')
+    # a failing activity aborts the rest at that time, whatever it failed with
+    _scope.check_child_failure_recorded(check, an, 'abort')
     # aborting an activity closes it whether it has started or not, and a closed activity
     # leaves whatever it was waiting for (the very pair it subscribed)
     c04.check_task_close(check, an, 'abort')
